@@ -432,7 +432,30 @@ def run(ctx):
         for bb2, t2 in b.calls():
             if not t2['args'] or op_local(t2['args'][0]) not in aliases:
                 if any(op_local(a) in aliases for a in t2['args'][1:]):
-                    return False, 'argument of %s' % strip_generics(t2.get('callee') or t2.get('decl') or '')
+                    sk0 = strip_generics(t2.get('callee') or t2.get('decl') or '')
+                    if sk0.endswith('::extend') and len(t2['args']) == 2:
+                        # collection.extend(iter): fine for hash / tree collections; a Vec must be sorted afterwards
+                        rty = (t2.get('argtys') or [''])[0]
+                        if re.search(r'Hash(Map|Set)|BTree(Map|Set)', rty):
+                            return True, 'extend of %s' % rty[:40]
+                        tgts = set()
+                        l0 = op_local(t2['args'][0])
+                        for _ in range(4):
+                            ds0 = b.defs().get(l0, []) if l0 is not None else []
+                            if len(ds0) == 1 and ds0[0][0] == 'stmt' and ds0[0][3]['rv']['k'] == 'ref':
+                                l0 = ds0[0][3]['rv']['place']['l']
+                                tgts.add(l0)
+                            elif len(ds0) == 1 and ds0[0][0] == 'stmt' and ds0[0][3]['rv']['k'] == 'use' and op_local(ds0[0][3]['rv']['op']) is not None:
+                                l0 = op_local(ds0[0][3]['rv']['op'])
+                            else:
+                                break
+                        for bb3, t3 in b.calls():
+                            k3 = strip_generics(t3.get('callee') or t3.get('decl') or '')
+                            if re.search(r'slice::<impl \[T\]>::sort(_unstable)?(_by|_by_key)?$', k3) and bb3 in b.reachable(t2['target']):
+                                sl = mirq.backslice(b, [op_local(t3['args'][0])] if op_local(t3['args'][0]) is not None else [])
+                                if sl & tgts:
+                                    return True, 'extended into a Vec that is then sorted'
+                    return False, 'argument of %s' % sk0
                 continue
             sk = strip_generics(t2.get('callee') or t2.get('decl') or '')
             if ADAPTOR.match(sk):
